@@ -28,4 +28,4 @@ DELIVERABLES (put them in {wt}/OUT/)
 - patch.diff : `git diff` of your source change only (must apply with `git apply` to a clean checkout of the same commit)
 - demo/ : the demonstration source plus a script run_demo.sh that builds and runs it against the tree in its current state (so that running it on the patched tree fails and on the clean tree passes); run_demo.sh must take the tree root as $1 (default {wt}).
 - notes.md : what the change is, why it breaks the property, what exactly is needed for it to manifest (interleaving / fault / sequence / input), which tests you ran and their results on the patched tree, and the demo's output with and without the change.
-Leave the worktree with the change APPLIED (uncommitted) when you finish. Do not commit. Report a short summary at the end.""")
+Leave the worktree with the change APPLIED (uncommitted) when you finish. Do not commit. Do NOT use `git stash` (the stash is shared with other worktrees of the same repository): to test the clean tree use `git diff > /tmp/<unique>.diff; git apply -R /tmp/<unique>.diff` and re-apply afterwards, or a `git archive HEAD` export. Report a short summary at the end.""")
